@@ -32,6 +32,9 @@ From SV Require Import proofs.NglobNamedWide.
 From SV Require Import proofs.NglobEndToEnd.
 From SV Require Import model.NglobRegs.
 From SV Require Import proofs.NglobRegsProofs.
+From SV Require Import model.NglobPyRegex.
+From SV Require gen.GenNglobRegex.
+From SV Require Import proofs.NglobRegexTie.
 Import ListNotations.
 Open Scope N_scope.
 
@@ -716,3 +719,30 @@ Theorem C17_memo_by_pattern_persists_foreign_object :
   rows_view (process_memo key_eqb str_eqb rg_regs [rg_1] []) = Some [([], true); ([], true)]
   /\ rows_view (process_nglob_changes key_eqb (map snd rg_regs) [rg_1] []) = Some [([], true); ([rg_a], false)].
 Proof. exact memo_by_pattern_persists_foreign_object. Qed.
+
+(* ========================================================================================== *)
+(* (8) The main loop of convert_nglob_to_regex, tied by TRANSLATION.                           *)
+(* ========================================================================================== *)
+
+(* gen/GenNglobRegex.v is regenerated on every run from the Python AST of the loop body
+   (translator/gen_nglob_regex.py: symbolic execution, one decision tree per iteration).  Folded over
+   RE_ANY_WILD.split it is, for ALL patterns and substitution dictionaries, the loop of the model
+   (top level and sub-pattern level); with the verbatim-checked post-processing block it is conv_regex;
+   the regex fragments the code assigns print as the code's texts. *)
+Theorem C17_translated_regex_loop_equals_model :
+  (forall p subs, gen_conv_loop p subs = conv_loop (top_named subs) (tokenize p) st0)
+  /\ (forall p, gen_conv_sub p = conv_sub p)
+  /\ (forall p subs, gen_conv_regex p subs = conv_regex p subs)
+  /\ forallb (fun x => str_eqb (pr (fst x)) (snd x)) GenNglobRegex.gen_regex_consts = true.
+Proof. exact translated_regex_loop_equals_model. Qed.
+
+(* (2) and (3) for the compiler as the code has it now *)
+Theorem C17_translated_compiler_parts_shape :
+  forall p subs ps, gen_conv_regex p subs = COk ps -> parts_ok ps = true.
+Proof. exact translated_compiler_parts_shape. Qed.
+
+Theorem C17_translated_compiler_correct_partial :
+  forall (p : str) (subs : subs_t) (ps : list re) (s : str),
+    f1 p subs = true -> gen_conv_regex p subs = COk ps -> wf_path s = true ->
+    nglob_ref false p subs s = Some (accepts (rcat ps) s).
+Proof. exact translated_compiler_correct_partial. Qed.
